@@ -69,7 +69,7 @@ def run_job(job):
                 for meta, ev in zip(seg["meta"], res):
                     ev.update(meta)
                     ev["proc"] = seg["n"]
-                    if ev["op"] in ("call", "query", "deps", "truth") or ev.get("exc"):
+                    if ev["op"] in ("call", "query", "deps", "truth", "probe") or ev.get("exc"):
                         events.append(ev)
             seg = None
 
@@ -136,6 +136,9 @@ def run_job(job):
                     seg["ops"].append({"op": "truth", "name": st["name"], "how": "plain",
                                        "text": vprogs.module_source(prog)})
                     seg["meta"].append({"step": st})
+            elif do == "probe":
+                seg["ops"].append({"op": "probe", "name": st["name"]})
+                seg["meta"].append({"step": st})
             elif do == "deps":
                 seg["ops"].append({"op": "deps", "name": st["name"]})
                 seg["meta"].append({"step": st})
